@@ -15,7 +15,7 @@ rsync -a --exclude target /verif/harness/ "$H/"
 find "$H" -name Cargo.toml -o -name config.toml | xargs sed -i "s#/repo/#$WT/#g; s#/verif/target#$WT/.verif-target#g"
 cp /verif/known_findings.json "$OUT/" 2>/dev/null || true
 cd "$H/props/$PKG"
-CARGO_NET_OFFLINE=true RUSTFLAGS=-Awarnings cargo build --offline --profile verif --quiet
+env -u RUSTFLAGS CARGO_NET_OFFLINE=true cargo build --offline --profile verif --quiet
 set +e
 VERIF_ROOT="$OUT" VERIF_TIER="$TIER" VERIF_BUILD=main "$WT/.verif-target/verif/$PKG" --tier "$TIER" "$@"
 code=$?
